@@ -80,7 +80,7 @@ def main():
     nt = 0
     for o in obs:
         case = cases[o["i"]]
-        if any(k[0] in ("rel", "abs", "abs2") for k in case["kinds"]):
+        if any(k[0] in ("rel", "abs", "abs2", "relup") for k in case["kinds"]):
             nt += 1
         mm = judge(case, o["obs"])
         # the view below the deleting layer, asked before and after the final view
